@@ -292,11 +292,20 @@ Inductive ccase :=
 | CTrip (a b : fwk) (src back : anytable)      (* real a -> b -> a *)
 | CRound (a b : fwk) (src out back : anytable). (* both legs and the round trip of one real a -> b -> a *)
 
-Definition chk_leg (a b : fwk) (src out : anytable) : bool :=
+(* where the model itself changes the representation in a way the property merely tolerates or the unchanged tree is known
+   to lose something: a column with a null and otherwise only integers while pandas is on the route (superset of kf_widening), an empty
+   table on its way to list-of-dicts (`a column with a null whose other cells are integers`: an all-null int64 column counts).  THERE a real result that differs from the model is still accepted when it satisfies
+   the specification (a repair of the known findings must not raise an alarm); everywhere else: the model, bit for bit. *)
+Definition only_int (cs : list cell) : bool := forallb (fun c => match norm c with VInt _ | VNull => true | _ => false end) cs.
+Definition dom_route (a b : fwk) (v : view) : bool :=
+  (uses_pandas a b && existsb (fun c => existsb is_null (snd c) && only_int (snd c)) v) || (fwk_eqb b FDict && kf_empty v).
+Definition chk_leg_exact (a b : fwk) (src out : anytable) : bool :=
   hw_ok src &&
   any_eqb (route a b src) (conv a b src) &&                       (* routing model o value model = the six conversions *)
-  (any_eqb (conv a b src) out                                     (* the real result IS the model's, bit for bit *)
-   || (kf_route a b (view_of src) && pres (view_of src) (view_of out))).   (* known-defect domain, defect repaired *)
+  any_eqb (conv a b src) out.                                     (* the real result IS the model's, bit for bit *)
+Definition chk_leg (a b : fwk) (src out : anytable) : bool :=
+  chk_leg_exact a b src out
+  || (dom_route a b (view_of src) && valid_of b out && pres (view_of src) (view_of out)).   (* ... or the specification *)
 Definition chk_trip (a b : fwk) (src back : anytable) : bool :=
   kf_route_exact a b (view_of src) || pres (view_of src) (view_of back).   (* the property itself, on real data *)
 Definition chk_conv (c : ccase) : bool :=
@@ -304,6 +313,13 @@ Definition chk_conv (c : ccase) : bool :=
   | CLeg a b src out => chk_leg a b src out
   | CTrip a b src back => chk_trip a b src back
   | CRound a b src out back => chk_leg a b src out && chk_leg b a out back && chk_trip a b src back
+  end.
+(* the same without the specification alternative: is the MODEL still what the code does? *)
+Definition chk_conv_exact (c : ccase) : bool :=
+  match c with
+  | CLeg a b src out => chk_leg_exact a b src out
+  | CTrip a b src back => true
+  | CRound a b src out back => chk_leg_exact a b src out && chk_leg_exact b a out back
   end.
 Close Scope Z_scope.
 """
@@ -504,6 +520,22 @@ def run_tie(rep: Any, seed: int, big: bool, tables: List[Tuple[Dict[str, Any], b
     shard = max(60, -(-len(cases) // max(1, vlib.NCPU - 2)))
     bad, info = vlib.run_cases("C14", "conv", REQ, "chk_conv", cases, case_type=CASE_TY, extra_defs=EXTRA, shard=shard)
     rep.count(len(cases))
+    # inside the tolerance domain a result that satisfies the specification is accepted: count how often that (and not
+    # equality with the model) is what made the case pass -- > 0 means the model no longer describes the code there
+    dom = [i for i, m in enumerate(meta) if i not in set(bad) and _in_tolerance_domain(m)]
+    stale: List[int] = []
+    if dom:
+        sbad, _ = vlib.run_cases("C14", "conv_exact", REQ, "chk_conv_exact", [cases[i] for i in dom], case_type=CASE_TY,
+                                 extra_defs=EXTRA, shard=max(60, -(-len(dom) // max(1, vlib.NCPU - 2))))
+        stale = [dom[k] for k in sbad]
+    st["cases_in_tolerance_domain"] = len(dom)
+    st["accepted_by_specification_not_by_model"] = len(stale)
+    if stale:
+        m = meta[stale[0]]
+        rep.notes.append(f"value model: {len(stale)} real conversions in the tolerance domain (nullable integer column through pandas / empty "
+                         f"table to list-of-dicts) differ from Model/ValueConv.v but satisfy the specification -- the code was changed "
+                         f"there (repair of a known finding?); the theorems of Props/C14val.v no longer describe it. First: "
+                         f"{m['a']}->{m['b']} on {json.dumps(m['src'], ensure_ascii=True)[:200]} gave {json.dumps(m['out'], ensure_ascii=True)[:200]}")
     # which part of a failing round case disagrees (second, tiny Coq run over the reported ones only)
     rep_bad = bad[:6]
     parts: List[Tuple[int, str, str]] = []
@@ -537,6 +569,31 @@ def run_tie(rep: Any, seed: int, big: bool, tables: List[Tuple[Dict[str, Any], b
     st.update({**info, "disagreements": len(bad), "wall_s": round(time.time() - t0, 1)})
     rep.add("value_model_correspondence", st)
     return found
+
+
+def _nullable_int(a: Dict[str, Any]) -> bool:
+    if a["fw"] == "D":
+        if not a["rows"]:
+            return False
+        cols = [[dict((k, c) for k, c in row).get(k0) for row in a["rows"]] for k0, _ in a["rows"][0]]
+    elif a["fw"] in ("A", "P"):
+        cols = [cells for _, _, cells in a["cols"]]
+    else:
+        return False
+    def null(c: Any) -> bool:
+        return c is None or (c[0] == "f" and c[1] == "nan")
+    return any(any(null(c) for c in col) and all(null(c) or c[0] == "i" for c in col) for col in cols)
+
+
+def _empty_with_columns(a: Dict[str, Any]) -> bool:
+    return a["fw"] in ("A", "P") and bool(a["cols"]) and len(a["cols"][0][2]) == 0
+
+
+def _in_tolerance_domain(m: Dict[str, Any]) -> bool:
+    """Python-side over-approximation of dom_route for either leg (only selects which cases are re-evaluated)."""
+    tabs = [m["src"], m["out"]] + ([m["back"]] if "back" in m else [])
+    pandas = "P" in (m["a"], m["b"])
+    return any((pandas and _nullable_int(x)) or _empty_with_columns(x) for x in tabs)
 
 
 def _cells(a: Dict[str, Any]) -> List[Any]:
